@@ -71,7 +71,6 @@ type SpecFn struct {
 	BodyTxt string
 	File    string
 	Line    int
-	Decl    *FuncDecl
 }
 
 type SpecParam struct{ Name, Type string }
